@@ -569,7 +569,7 @@ Definition chk_step_C11 : step_chk := fun prev x o ob =>
       end
   | SPurge => strs_eqb (sn_colls prev) (sn_colls post)
   | SDump _ _ | SQuery _ _ | SPutDDoc _ _ _ | SDelDDoc _ _ | SView _ _ _ _ | SDumpKeys _ _ | SGetDDocs _ | SDraw _ _ _ _ => rows_eqb (sn_rows prev) (sn_rows post) && strs_eqb (sn_colls prev) (sn_colls post)
-  | SExpire | SReopen => strs_eqb (sn_colls prev) (sn_colls post)
+  | SExpire | SReopen | SExpireScan _ | SExpireK _ _ _ => strs_eqb (sn_colls prev) (sn_colls post)
   end.
 
 (* C05: PurgeTombstones removes exactly the body-less documents and reports their number *)
@@ -674,17 +674,41 @@ Definition covers (next e : N) : bool := (e =? 0) || (negb (next =? 0) && (next 
 Definition snap_next (s : snapshot) : N := match sn_lastcas s with (_, n) :: _ => n | [] => 0 end.
 Definition row_exp (o : obsrow) : N := match o_exp o with RNum e => e | _ => 0 end.
 
+(* which documents a step of the expiry sweep is about.  The sweep goes through the collections in the order in
+   which they were created (the order of the snapshot's collection list); a firing that is not interrupted
+   (SExpire) takes them all; one that is interrupted after its query of collection wc has, up to there
+   (SExpireScan wc), swept the collections before wc, and when it goes on (SExpireK wc keys) takes the keys its
+   query returned and then the collections after wc *)
+Fixpoint before_in (l : list string) (a b : string) : bool :=
+  match l with
+  | [] => false
+  | c :: r => if String.eqb c b then false else if String.eqb c a then existsb (String.eqb b) r else before_in r a b
+  end.
+
+Definition is_sweep (o : sop) : bool := match o with SExpire | SExpireScan _ | SExpireK _ _ _ => true | _ => false end.
+
+Definition sweep_takes (colls : list string) (o : sop) (c k : string) : bool :=
+  match o with
+  | SExpire => true
+  | SExpireScan wc => before_in colls c wc
+  | SExpireK wc keys _ => (String.eqb c wc && existsb (String.eqb k) keys) || before_in colls wc c
+  | _ => false
+  end.
+
 (* after every step: a timer is armed at or before the earliest pending expiry; a firing of the timer
-   at time t tombstones every document with 0 < exp <= t and leaves every other document alone *)
+   at time t tombstones every document with 0 < exp <= t and leaves every other document alone.  A sweep that is
+   interrupted removes, of the documents it is about (sweep_takes), those whose expiry has passed WHEN IT REMOVES
+   THEM - the read-back just before the step - and no other: a document given a later expiry, or none, between the
+   sweep's query and its removals stays (never early) *)
 Definition chk_step_C14 : step_chk := fun prev x o ob =>
   let post := os_snap ob in
   forallb (fun e => covers (snap_next post) (row_exp (snd e))) (sn_rows post)
   && match o with
-     | SExpire =>
+     | SExpire | SExpireScan _ | SExpireK _ _ _ =>
          forallb (fun e => match look (fst e) (sn_rows post) with
                            | Some o1 =>
                                let e0 := row_exp (snd e) in
-                               if (0 <? e0) && (e0 <=? x_now x)
+                               if (0 <? e0) && (e0 <=? x_now x) && sweep_takes (sn_colls prev) o (fst (fst e)) (snd (fst e))
                                then negb (o_exists o1) && (row_exp o1 =? 0)
                                     && existsb (fun f => String.eqb (f_key f) (snd (fst e)) && (if fopcode_eq_dec (f_op f) FDeletion then true else false)) (os_live ob)
                                else obsrow_eqb (snd e) o1
@@ -701,10 +725,10 @@ Definition chk_C14_kv (t : scase * list ostep) : bool :=
    the firing of the timer removed (C05: only the system xattrs stay; C17: the revision goes up by one; ...) *)
 Definition chk_step_expiry (rc : rowchk) : step_chk := fun prev x o ob =>
   match o with
-  | SExpire =>
+  | SExpire | SExpireScan _ | SExpireK _ _ _ =>
       forallb (fun e =>
                  let e0 := row_exp (snd e) in
-                 if (0 <? e0) && (e0 <=? x_now x) then
+                 if (0 <? e0) && (e0 <=? x_now x) && sweep_takes (sn_colls prev) o (fst (fst e)) (snd (fst e)) then
                    match look (fst e) (sn_rows (os_snap ob)) with
                    | Some o1 =>
                        let cid := coll_of_obs o1 0 in
